@@ -14,6 +14,8 @@ pub const ID_EOF: u32 = 0xE0F0_0001;
 pub const ID_WRITE_ZERO: u32 = 0xE0F0_0002;
 pub const ID_BUDGET: u32 = 0xE0F0_0003;
 pub const ID_NEG_SEEK: u32 = 0xE0F0_0004;
+/// retryable ("interrupted") error: the call had no effect and may be repeated
+pub const ID_INTR: u32 = 0xE0F0_0005;
 
 #[derive(Debug, Clone, Copy, PartialEq, Eq)]
 pub struct DevErr {
@@ -22,7 +24,7 @@ pub struct DevErr {
 
 impl IoError for DevErr {
     fn is_interrupted(&self) -> bool {
-        false
+        self.id == ID_INTR
     }
     fn new_unexpected_eof_error() -> Self {
         DevErr { id: ID_EOF }
